@@ -57,11 +57,10 @@ theorem fold_stable (route : RouteM) (ms : List Bytes) : ∀ (g : Gen.Router) (s
 
 theorem fold_regular (route : RouteM) (first : Bytes) (ms : List Bytes) : ∀ (g : Gen.Router) (s : RouterM),
     ms.foldl (fun (b : Gen.Router × RouterM) m =>
-        if (!(envA.getRegular b.2 (m ++ first)).2) = true then
-          ({ b.1 with counter := b.1.counter + 1 }, envA.setRegular b.2 (m ++ first) ([] ++ [route]))
-        else
-          ({ b.1 with counter := b.1.counter + 1 },
-            envA.setRegular b.2 (m ++ first) ((envA.getRegular b.2 (m ++ first)).1 ++ [route]))) (g, s) =
+        (({ b.1 with counter := b.1.counter + 1 } : Gen.Router),
+          envA.setRegular b.2 (m ++ first)
+            ((if (!(envA.getRegular b.2 (m ++ first)).2) = true then [] else (envA.getRegular b.2 (m ++ first)).1) ++ [route])))
+        (g, s) =
       ({ g with counter := g.counter + ms.length },
         { s with regular := ms.foldl (fun t m => alistAppend t (m ++ first) route) s.regular }) := by
   induction ms with
@@ -69,12 +68,9 @@ theorem fold_regular (route : RouteM) (first : Bytes) (ms : List Bytes) : ∀ (g
   | cons a t ih =>
     intro g s
     simp only [List.foldl_cons]
-    have hstep : (if (!(envA.getRegular s (a ++ first)).2) = true then
-          (({ g with counter := g.counter + 1 } : Gen.Router), envA.setRegular s (a ++ first) ([] ++ [route]))
-        else
-          ({ g with counter := g.counter + 1 },
-            envA.setRegular s (a ++ first) ((envA.getRegular s (a ++ first)).1 ++ [route]))) =
-        ({ g with counter := g.counter + 1 }, { s with regular := alistAppend s.regular (a ++ first) route }) := by
+    have hstep : envA.setRegular s (a ++ first)
+          ((if (!(envA.getRegular s (a ++ first)).2) = true then [] else (envA.getRegular s (a ++ first)).1) ++ [route]) =
+        { s with regular := alistAppend s.regular (a ++ first) route } := by
       simp only [envA, alistAppend]
       rcases Option.eq_none_or_eq_some (alistGet s.regular (a ++ first)) with h | ⟨l, h⟩ <;> simp [h]
     rw [hstep, ih]
@@ -86,11 +82,10 @@ theorem fold_regular (route : RouteM) (first : Bytes) (ms : List Bytes) : ∀ (g
 
 theorem fold_irregular (route : RouteM) (ms : List Bytes) : ∀ (g : Gen.Router) (s : RouterM),
     ms.foldl (fun (b : Gen.Router × RouterM) m =>
-        if (!(envA.getIrregular b.2 m).2) = true then
-          ({ b.1 with counter := b.1.counter + 1 }, envA.setIrregular b.2 m ([] ++ [route]))
-        else
-          ({ b.1 with counter := b.1.counter + 1 },
-            envA.setIrregular b.2 m ((envA.getIrregular b.2 m).1 ++ [route]))) (g, s) =
+        (({ b.1 with counter := b.1.counter + 1 } : Gen.Router),
+          envA.setIrregular b.2 m
+            ((if (!(envA.getIrregular b.2 m).2) = true then [] else (envA.getIrregular b.2 m).1) ++ [route])))
+        (g, s) =
       ({ g with counter := g.counter + ms.length },
         { s with irregular := ms.foldl (fun t m => alistAppend t m route) s.irregular }) := by
   induction ms with
@@ -98,11 +93,9 @@ theorem fold_irregular (route : RouteM) (ms : List Bytes) : ∀ (g : Gen.Router)
   | cons a t ih =>
     intro g s
     simp only [List.foldl_cons]
-    have hstep : (if (!(envA.getIrregular s a).2) = true then
-          (({ g with counter := g.counter + 1 } : Gen.Router), envA.setIrregular s a ([] ++ [route]))
-        else
-          ({ g with counter := g.counter + 1 }, envA.setIrregular s a ((envA.getIrregular s a).1 ++ [route]))) =
-        ({ g with counter := g.counter + 1 }, { s with irregular := alistAppend s.irregular a route }) := by
+    have hstep : envA.setIrregular s a
+          ((if (!(envA.getIrregular s a).2) = true then [] else (envA.getIrregular s a).1) ++ [route]) =
+        { s with irregular := alistAppend s.irregular a route } := by
       simp only [envA, alistAppend]
       rcases Option.eq_none_or_eq_some (alistGet s.irregular a) with h | ⟨l, h⟩ <;> simp [h]
     rw [hstep, ih]
@@ -128,30 +121,26 @@ theorem tie_appendRoute (g : Gen.Router) (rt : RouterM) (route : RouteM)
     (fun m b => ({ b.1 with counter := b.1.counter + 1 }, envA.setStable b.2 (m ++ route.path) route))
     (fun _ _ => rfl) (g0, s0)
   have l2 := fun (g0 : Gen.Router) (s0 : RouterM) => forIn_pure route.methods
-    (fun method_1_it (__s : Gen.Router × RouterM) =>
-      if (!(envA.getRegular __s.2 (method_1_it ++ route.info.first)).2) = true then
-        (Except.ok (ForInStep.yield ({ __s.1 with counter := __s.1.counter + 1 },
-          envA.setRegular __s.2 (method_1_it ++ route.info.first) ([] ++ [route]))) : Except Panic _)
-      else Except.ok (ForInStep.yield ({ __s.1 with counter := __s.1.counter + 1 },
-          envA.setRegular __s.2 (method_1_it ++ route.info.first)
-            ((envA.getRegular __s.2 (method_1_it ++ route.info.first)).1 ++ [route]))))
-    (fun m b => if (!(envA.getRegular b.2 (m ++ route.info.first)).2) = true then
-        ({ b.1 with counter := b.1.counter + 1 }, envA.setRegular b.2 (m ++ route.info.first) ([] ++ [route]))
-      else ({ b.1 with counter := b.1.counter + 1 },
-        envA.setRegular b.2 (m ++ route.info.first) ((envA.getRegular b.2 (m ++ route.info.first)).1 ++ [route])))
-    (fun _ _ => by split <;> rfl) (g0, s0)
+    (fun method_1_it (__s : Gen.Router × RouterM) => (Except.ok (ForInStep.yield
+      ({ __s.1 with counter := __s.1.counter + 1 },
+        envA.setRegular __s.2 (method_1_it ++ route.info.first)
+          ((if (!(envA.getRegular __s.2 (method_1_it ++ route.info.first)).2) = true then []
+            else (envA.getRegular __s.2 (method_1_it ++ route.info.first)).1) ++ [route]))) : Except Panic _))
+    (fun m b => ({ b.1 with counter := b.1.counter + 1 },
+        envA.setRegular b.2 (m ++ route.info.first)
+          ((if (!(envA.getRegular b.2 (m ++ route.info.first)).2) = true then []
+            else (envA.getRegular b.2 (m ++ route.info.first)).1) ++ [route])))
+    (fun _ _ => rfl) (g0, s0)
   have l3 := fun (g0 : Gen.Router) (s0 : RouterM) => forIn_pure route.methods
-    (fun method_2_it (__s : Gen.Router × RouterM) =>
-      if (!(envA.getIrregular __s.2 method_2_it).2) = true then
-        (Except.ok (ForInStep.yield ({ __s.1 with counter := __s.1.counter + 1 },
-          envA.setIrregular __s.2 method_2_it ([] ++ [route]))) : Except Panic _)
-      else Except.ok (ForInStep.yield ({ __s.1 with counter := __s.1.counter + 1 },
-          envA.setIrregular __s.2 method_2_it ((envA.getIrregular __s.2 method_2_it).1 ++ [route]))))
-    (fun m b => if (!(envA.getIrregular b.2 m).2) = true then
-        ({ b.1 with counter := b.1.counter + 1 }, envA.setIrregular b.2 m ([] ++ [route]))
-      else ({ b.1 with counter := b.1.counter + 1 },
-        envA.setIrregular b.2 m ((envA.getIrregular b.2 m).1 ++ [route])))
-    (fun _ _ => by split <;> rfl) (g0, s0)
+    (fun method_2_it (__s : Gen.Router × RouterM) => (Except.ok (ForInStep.yield
+      ({ __s.1 with counter := __s.1.counter + 1 },
+        envA.setIrregular __s.2 method_2_it
+          ((if (!(envA.getIrregular __s.2 method_2_it).2) = true then []
+            else (envA.getIrregular __s.2 method_2_it).1) ++ [route]))) : Except Panic _))
+    (fun m b => ({ b.1 with counter := b.1.counter + 1 },
+        envA.setIrregular b.2 m
+          ((if (!(envA.getIrregular b.2 m).2) = true then [] else (envA.getIrregular b.2 m).1) ++ [route])))
+    (fun _ _ => rfl) (g0, s0)
   unfold Gen.Router.appendRoute insertRoute
   have e1 : envA.goodInfo route = .ok () := rfl
   have e2 : envA.appendGroupInfo rt route = .ok (rt, route) := rfl
@@ -159,7 +148,7 @@ theorem tie_appendRoute (g : Gen.Router) (rt : RouterM) (route : RouteM)
   have e4 : ∀ s k r, envA.setNamed s k r = s := fun _ _ _ => rfl
   have e5 : envA.path route = route.path := rfl
   have e6 : envA.methods route = route.methods := rfl
-  simp only [bind, Except.bind, pure, Except.pure, e1, e2, e3, e4, e5, e6, hfix, ite_self]
+  simp only [bind, Except.bind, pure, Except.pure, e1, e2, e3, e4, e5, e6, hfix, ite_self, Id.run, GoRt.idPure, GoRt.idBind]
   cases hs : route.static with
   | true =>
     simp only [if_true]
